@@ -214,9 +214,10 @@ def gen_tree(rng, prof=None, depth=0, idgen=None, top=True, maxdepth=None):
             job['forever'] = rng.random() < p.get('p_forever', 0.15)
             job['outcome'] = 'raise' if rng.random() < p.get('p_raise', 0.25) else 'return'
             if job['outcome'] == 'raise' and rng.random() < 0.4:
-                job['exc'] = rng.choice(['timeout', 'key', 'custom', 'base', 'empty', 'multiline', 'group', 'queue'])
+                job['exc'] = rng.choice(['timeout', 'key', 'custom', 'base', 'empty', 'multiline', 'group', 'queue', 'runtime',
+                                         'notimpl', 'sealed', 'shared', 'shared'])
             if job['outcome'] == 'return' and rng.random() < 0.2:
-                job['retval'] = rng.choice(['none', 'false', 'zero', 'empty', 'future'])
+                job['retval'] = rng.choice(['none', 'false', 'zero', 'empty', 'future', 'pending', 'excval'])
             job['cdur'] = rng.choice(p.get('cdurs', [0, 0, 0, 1, 2]))
             job['cyields'] = rng.choice([0, 0, 1])
             job['sdur'] = rng.choice(p.get('sdurs', [0, 0, 0, 1, 3]))
@@ -239,6 +240,8 @@ def gen_tree(rng, prof=None, depth=0, idgen=None, top=True, maxdepth=None):
                 # a job that times out an inner operation by itself and carries on
                 job['itmo'] = dict(after=rng.choice([0.5, 1, 1.5]), close=rng.choice([0.5, 1, 2, 3]),
                                    rounds=rng.choice([1, 1, 2]))
+            if not job.get('print') and rng.random() < 0.06:
+                job['touch'] = True
             if not job.get('print') and job['dur'] and rng.random() < p.get('p_sub', 0.06):
                 # the job spends its main delay in tasks of its own
                 job['sub'] = rng.choice(['gather', 'taskgroup', 'shield'])
@@ -519,7 +522,28 @@ def gap_sweep(thorough=False):
                 yield assign_hashes(sched('W', jobs, edges=edges, window=win, timeout=tmo))
 
 
+def fanout_sweep(thorough=False):
+    """one completion (A) makes K >= 16 jobs startable at once while a second
+    requirement (B) of a few of them ends 0..6 event-loop iterations later;
+    the window is full, so whatever is started has to queue.  (A main loop that
+    lets go of the event loop while it creates a large batch of tasks shows
+    here as a double start.)"""
+    fans = (15, 16, 17, 33, 48) if thorough else (16, 33)
+    for fan, gap, win in itertools.product(fans, range(0, 7), (1, 3)):
+        for pa in ((0, 2) if thorough else (0,)):
+            jobs = [atom('A', 1, post=pa), atom('B', 1, post=pa + gap)]
+            edges = []
+            for i in range(fan):
+                jobs.append(atom('L%d' % i, 2))
+                edges.append(('L%d' % i, 'A'))
+            for i in range(4):
+                jobs.append(atom('J%d' % i, 1, coro=(i == 3)))
+                edges += [('J%d' % i, 'A'), ('J%d' % i, 'B')]
+            yield assign_hashes(sched('W', jobs, edges=edges, window=win))
+
+
 SWEEPS = {
+    'fanout': fanout_sweep,
     'gap': gap_sweep,
     'extcancel': external_cancel_sweep,
     'phase': phase_sweep,
